@@ -243,18 +243,33 @@ theorem C28_unresolvable_iff (files : List FileSpec) (ans : Nat → Nat → Answ
 
 /-- The round after which the loop gives up is determined by the answers. -/
 theorem C28_giveup_round_unique (files : List FileSpec) (ans : Nat → Nat → Answer) (K K' : Nat)
-    (h : GaveUpAt files ans K) (h' : GaveUpAt files ans K') : K = K' := by
-  have key : ∀ A B, GaveUpAt files ans A → GaveUpAt files ans B → ¬ A < B := by
-    intro A B hA hB hlt
-    obtain ⟨g, hg, q, hq, t, ht⟩ := hB.2 A hlt
-    rcases hA.1 g hg q hq with ⟨j, hj, t', ht'⟩ | hpt
-    · have := ht.2 j hj
-      rw [ht'.1] at this; cases this
-    · have := hpt A (Nat.le_refl _)
-      rw [ht.1] at this; cases this
-  have h1 := key K K' h h'
-  have h2 := key K' K h' h
-  omega
+    (h : GaveUpAt files ans K) (h' : GaveUpAt files ans K') : K = K' :=
+  gaveUpAt_unique files ans K K' h h'
+
+/-- **The loop agrees with the executable specification** (`LinkLocSpec.lean`, computed from
+the reference lists and the provider answers alone, and compared with the real code by the
+harness): if loading ends with "Unresolvable cross references", then `giveUpRound` finds the
+round `K` after which the loop gave up, `firstPending` finds the first reference in load order
+that is postponed in all rounds `0 … K`, and the error names the file and line / column of
+exactly that reference.  (`askTrace files ans K`, the sequence of provider calls the harness
+compares, lists for each round `0 … K` the references `pendB`-pending at its start — by
+`stepModels_exact` these are the references the loop model passes over in that round.) -/
+theorem C28_unresolvable_computed (files : List FileSpec) (ans : Nat → Nat → Answer) (fuel : Nat) (e : Err)
+    (hpos : ∀ f ∈ files, ∀ r ∈ f.refs, r.pos ≤ f.text.length)
+    (h : run files ans fuel = .err e) (hk : e.kind = .unresolvable) :
+    ∃ K f r, giveUpRound files ans fuel = some K ∧ firstPending files ans K = some (f, r) ∧
+      PointsAt e f r.pos := by
+  obtain ⟨K, f, r, hK, hg, hfirst, hpt⟩ := C28_unresolvable_first files ans fuel e hpos h hk
+  refine ⟨K, f, r, ?_, firstPending_eq files ans K f r hfirst, hpt⟩
+  obtain ⟨pre, post, r1, r2, hfs, hrefs, hp, _⟩ := hfirst
+  exact giveUpRound_eq files ans fuel K hK hg ⟨f, by rw [hfs]; simp, r, by rw [hrefs]; simp, hp⟩
+
+/-- the Boolean functions of the executable specification decide the propositions used above -/
+theorem C28_spec_reflects (files : List FileSpec) (ans : Nat → Nat → Answer) (K : Nat) :
+    (gaveUpAtB files ans K = true ↔ GaveUpAt files ans K) ∧
+    (somePostponedB files ans K = true ↔ ∃ g ∈ files, ∃ q ∈ g.refs, PostponedThrough ans K q) ∧
+    (∀ f r, FirstUnresolvable files ans K f r → firstPending files ans K = some (f, r)) :=
+  ⟨gaveUpAtB_iff files ans K, somePostponedB_iff files ans K, firstPending_eq files ans K⟩
 
 /-! ### the pinned (unrepaired) constructions violate the property -/
 
@@ -312,6 +327,9 @@ example : ∀ f ∈ giveupFiles, f.nm = none := by decide
 example : ∀ f ∈ giveupFiles, ∀ r ∈ f.refs, r.pos ≤ f.text.length := by decide
 example : ∃ g ∈ giveupFiles, ∃ q ∈ g.refs, PostponedThrough giveupAns 2 q :=
   ⟨_, List.mem_cons_self, ⟨2, 4, 5⟩, by simp, fun _ _ => rfl⟩
+example : giveUpRound giveupFiles giveupAns 5 = some 2 ∧
+    firstPending giveupFiles giveupAns 2 = some (⟨some "a", "x\ny z".toList, [⟨0, 0, 1⟩, ⟨1, 2, 3⟩, ⟨2, 4, 5⟩], none⟩, ⟨2, 4, 5⟩) ∧
+    askTrace giveupFiles giveupAns 2 = [0, 1, 2, 0, 2, 2] := by decide
 example : GaveUpAt giveupFiles giveupAns 2 := by
   constructor
   · intro g hg q hq
